@@ -26,11 +26,17 @@ def entries(pym, seed, thorough=False):
     rng = np.random.default_rng(seed)
     E = []
 
-    def add(name, cfg, mk, ins, nout=1, dirs=None, freeze=None, tol=2e-6, linear=False, h=1e-3):
+    def add(name, cfg, mk, ins, nout=1, dirs=None, freeze=None, tol=2e-6, linear=False, h=1e-3, share=None):
         ins = [_c(x) for x in ins]
+        # share: groups of argument positions that are served by ONE Signal object (e.g. EinSum 'i,ij,j->' with (b, A, b))
+        rep_of = list(range(len(ins)))
+        for grp in (share or []):
+            for j in grp[1:]:
+                rep_of[j] = grp[0]
 
         def build():
             si = [pym.Signal(f'in{i}', _c(x)) for i, x in enumerate(ins)]
+            si = [si[rep_of[i]] for i in range(len(si))]
             so = [pym.Signal(f'out{j}') for j in range(nout)]
             m = mk(si, so)
             return m, si, so
@@ -48,11 +54,11 @@ def entries(pym, seed, thorough=False):
                     out.append(r.standard_normal(np.shape(x)) if np.ndim(x) else float(r.standard_normal()))
             return out
         E.append(dict(name=name, cfg=cfg, build=build, dirs=dirs or default_dirs, freeze=freeze, tol=tol,
-                      linear=linear, ins=ins, h=h))
+                      linear=linear, ins=ins, h=h, rep_of=rep_of))
         # the same entry with Fortran-ordered dense matrix inputs (memory layout must not matter)
         if any(isinstance(x, np.ndarray) and x.ndim == 2 and x.shape[0] > 1 and x.shape[1] > 1 for x in ins) and not cfg.get('_layout'):
             insF = [np.asfortranarray(x) if isinstance(x, np.ndarray) and x.ndim == 2 else x for x in ins]
-            add(name, dict(cfg, _layout='F'), mk, insF, nout=nout, dirs=dirs, freeze=freeze, tol=tol, linear=linear, h=h)
+            add(name, dict(cfg, _layout='F'), mk, insF, nout=nout, dirs=dirs, freeze=freeze, tol=tol, linear=linear, h=h, share=share)
 
     def rnd(*shape):
         return rng.random(shape) + 0.25
@@ -108,6 +114,12 @@ def entries(pym, seed, thorough=False):
                            ("ij,j->i", [A, u + 1j * v]), ("i,i->", [u + 1j * v, v + 0j])):
             add('EinSum', dict(expr=expr, cplx=[bool(np.iscomplexobj(a)) for a in args]),
                 lambda si, so, expr=expr: pym.EinSum(si, so, expression=expr), args, linear=[[k] for k in range(len(args))])
+        # the same Signal object serving several arguments (documented use: quadratic forms, projections)
+        zc = u + 1j * v
+        for expr, args, share in (("i,ij,j->", [u, A, u], [[0, 2]]), ("ji,jk,kl->il", [V, A, V], [[0, 2]]), ("i,i->", [zc, zc], [[0, 1]]),
+                                  ("ij,jk->ik", [A, A], [[0, 1]]), ("i,ij,j->", [zc, Ac, zc], [[0, 2]])):
+            add('EinSum', dict(expr=expr, shared=str(share), cplx=[bool(np.iscomplexobj(a)) for a in args]),
+                lambda si, so, expr=expr: pym.EinSum(si, so, expression=expr), args, share=share)
         # ------------------------------------------------------------------ ConcatSignal
         add('ConcatSignal', dict(kinds='vec,scalar,vec'), lambda si, so: pym.ConcatSignal(si, so), [rnd(3), 0.75, rnd(2)], linear=True)
         add('ConcatSignal', dict(kinds='mat,vec'), lambda si, so: pym.ConcatSignal(si, so), [rnd(2, 2), rnd(3)], linear=True)
@@ -137,6 +149,37 @@ def entries(pym, seed, thorough=False):
                     kw.update(xi_0=0.4, p=10.0, eps=1e-3)
                 add('OverhangFilter', dict(dom=(d.nelx, d.nely, d.nelz), **kw),
                     lambda si, so, d=d, kw=kw: pym.OverhangFilter(si, so, d, **kw), [rng.random(d.nel) * 0.9 + 0.05], tol=3e-4, h=2e-4)
+        # deliberately anisotropic 3-D cases (every axis has its own size, kernels without any mirror symmetry,
+        # no constant padding that could hide an axis): axis mix-ups and missing flips cannot cancel here
+        for shp in ((4, 3, 2), (2, 3, 4), (3, 4, 2)):
+            d = pym.DomainDefinition(*shp, 1.0, 0.5, 2.0)
+            x = rnd(d.nel)
+            nm = ['symmetric', 'edge', 'wrap']
+            bcs = {k: nm[int(rng.integers(3))] for k in ('xmin_bc', 'xmax_bc', 'ymin_bc', 'ymax_bc', 'zmin_bc', 'zmax_bc')}
+            for ksh in ((3, 3, 3), (1, 3, 3), (3, 1, 1)):
+                w = rng.random(ksh) + 0.1 * np.arange(np.prod(ksh)).reshape(ksh)
+                add('FilterConv', dict(dom=shp, weights=ksh, anisotropic=True, **bcs),
+                    lambda si, so, d=d, w=w, bcs=bcs: pym.FilterConv(si, so, d, weights=w, **bcs), [x], linear=True)
+            add('FilterConv', dict(dom=shp, radius=1.6, anisotropic=True, **bcs),
+                lambda si, so, d=d, bcs=bcs: pym.FilterConv(si, so, d, radius=1.6, **bcs), [x], linear=True)
+            add('DensityFilter', dict(dom=shp, radius=1.7, anisotropic=True),
+                lambda si, so, d=d: pym.DensityFilter(si, so, d, radius=1.7), [x], linear=True)
+            for direction in ('+x', '-x', '+y', '-y', '+z', '-z'):
+                for ns in (5, 9):
+                    kw = dict(direction=direction, nsampling=ns)
+                    add('OverhangFilter', dict(dom=shp, anisotropic=True, **kw),
+                        lambda si, so, d=d, kw=kw: pym.OverhangFilter(si, so, d, **kw), [rng.random(d.nel) * 0.9 + 0.05], tol=3e-4, h=2e-4)
+        for shp in ((4, 3, 0), (2, 5, 0)):
+            d = pym.DomainDefinition(*shp, 1.0, 0.5, 2.0)
+            w = rng.random((3, 5)) + 0.1 * np.arange(15).reshape(3, 5)
+            nm = ['symmetric', 'edge', 'wrap']
+            bcs = {k: nm[int(rng.integers(3))] for k in ('xmin_bc', 'xmax_bc', 'ymin_bc', 'ymax_bc')}
+            add('FilterConv', dict(dom=shp, weights=(3, 5), anisotropic=True, **bcs),
+                lambda si, so, d=d, w=w, bcs=bcs: pym.FilterConv(si, so, d, weights=w, **bcs), [rnd(d.nel)], linear=True)
+            for direction in ('+x', '-x', '+y', '-y'):
+                add('OverhangFilter', dict(dom=shp, anisotropic=True, direction=direction),
+                    lambda si, so, d=d, direction=direction: pym.OverhangFilter(si, so, d, direction=direction),
+                    [rng.random(d.nel) * 0.9 + 0.05], tol=3e-4, h=2e-4)
         # ------------------------------------------------------------------ assembly and element operators
         for dim in (2, 3):
             d = dom(dim)
@@ -359,43 +402,121 @@ def set_inputs(ins, base, dirs, t):
             s.state = x + t * v
 
 
-def adjoint_check(entry, pym, rng, seed_kind='full', dyad_seed=False):
-    """returns dict(ok, an, fd, err, detail) for one zoo entry, one seed set and one direction set"""
+def _uniq(entry, ins):
+    """positions of the distinct Signal objects among the module inputs (shared signals are listed once)"""
+    rep = entry.get('rep_of') or list(range(len(ins)))
+    return [i for i in range(len(ins)) if rep[i] == i]
+
+
+def _column_masks(outs, rng):
+    """complementary 0/1 masks over the LAST axis of every array output (over the output list when all are scalars)"""
+    ma, mb = [], []
+    for s in outs:
+        shp = np.shape(dense(s.state))
+        if len(shp) == 0 or shp[-1] < 2:
+            keep = bool(rng.integers(2))
+            ma.append(np.full(shp, 1.0 if keep else 0.0))
+            mb.append(np.full(shp, 0.0 if keep else 1.0))
+            continue
+        k = shp[-1]
+        sel = np.zeros(k)
+        sel[rng.choice(k, size=int(rng.integers(1, k)), replace=False)] = 1.0
+        ma.append(np.broadcast_to(sel, shp).copy())
+        mb.append(np.broadcast_to(1.0 - sel, shp).copy())
+    return ma, mb
+
+
+def adjoint_check(entry, pym, rng, seed_kind='full', dyad_seed=False, reseed=False):
+    """returns dict(ok, an, fd, err, detail) for one zoo entry, one seed set and one direction set.
+    reseed=True: the module first backpropagates a seed supported on a random subset of the output columns, is reset,
+    and is then seeded on the COMPLEMENTARY columns (a second sensitivity() after one response()); after that the
+    design is changed, response() is called again and a third, again differently supported, seed is checked: every
+    pass must give the adjoint for ITS seed (caches keyed on 'what was seeded before' or 'the previous design' show)."""
     m, ins, outs = entry['build']()
+    uq = _uniq(entry, ins)
     base = [_c(x) for x in entry['ins']]
     m.response()
     if entry['freeze']:
         entry['freeze'](m)
-    seeds = make_seeds(outs, rng, pym, seed_kind)
-    used = []
-    for s, w in zip(outs, seeds):
-        if w is None:
-            continue
-        if dyad_seed and sps.issparse(s.state):
-            n0, n1 = s.state.shape
-            a, b = rng.standard_normal(n0), rng.standard_normal(n1)
-            s.sensitivity = pym.DyadCarrier(a, b)
-            used.append(np.outer(a, b))
-        else:
-            s.sensitivity = _c(w)
-            used.append(w)
-    seeds = [None if w is None else used.pop(0) for w in seeds]
-    m.sensitivity()
-    g = [s.sensitivity for s in ins]
-    dirs = entry['dirs'](rng)
-    an = sum(pairing(gi, vi, pym) for gi, vi in zip(g, dirs) if vi is not None)
     h = entry['h']
+    dirs = entry['dirs'](rng)
+    uins, ubase, udirs = [ins[i] for i in uq], [base[i] for i in uq], [dirs[i] for i in uq]
 
-    def f(t):
-        set_inputs(ins, base, dirs, t)
+    def install(seeds):
+        used = []
+        for s, w in zip(outs, seeds):
+            if w is None:
+                continue
+            if dyad_seed and sps.issparse(s.state):
+                n0, n1 = s.state.shape
+                a, b = rng.standard_normal(n0), rng.standard_normal(n1)
+                s.sensitivity = pym.DyadCarrier(a, b)
+                used.append(np.outer(a, b))
+            else:
+                s.sensitivity = _c(w)
+                used.append(w)
+        return [None if w is None else used.pop(0) for w in seeds]
+
+    def compare(seeds, base_now):
+        g = [s.sensitivity for s in uins]
+        an = sum(pairing(gi, vi, pym) for gi, vi in zip(g, udirs) if vi is not None)
+
+        def f(t):
+            set_inputs(uins, base_now, udirs, t)
+            m.response()
+            return phi(outs, seeds)
+        d1 = (f(h) - f(-h)) / (2 * h)
+        d2 = (f(h / 2) - f(-h / 2)) / h
+        fd = (4 * d2 - d1) / 3
+        set_inputs(uins, base_now, udirs, 0.0)
         m.response()
-        return phi(outs, seeds)
-    d1 = (f(h) - f(-h)) / (2 * h)
-    d2 = (f(h / 2) - f(-h / 2)) / h
-    fd = (4 * d2 - d1) / 3
-    scale = max(abs(an), abs(fd), 1e-3 * sum(float(np.sum(np.abs(dense(s.state)))) for s in outs) + 1e-12)
-    err = abs(an - fd) / scale
-    return dict(ok=bool(err <= entry['tol']), an=an, fd=fd, err=err, seed_kind=seed_kind, dyad_seed=dyad_seed)
+        scale = max(abs(an), abs(fd), 1e-3 * sum(float(np.sum(np.abs(dense(s.state)))) for s in outs) + 1e-12)
+        return an, fd, abs(an - fd) / scale
+
+    if not reseed:
+        seeds = install(make_seeds(outs, rng, pym, seed_kind))
+        m.sensitivity()
+        an, fd, err = compare(seeds, ubase)
+        return dict(ok=bool(err <= entry['tol']), an=an, fd=fd, err=err, seed_kind=seed_kind, dyad_seed=dyad_seed)
+    # ---- pass 1: seed on a column subset, backpropagate, reset
+    ma, mb = _column_masks(outs, rng)
+    full = make_seeds(outs, rng, pym, 'full')
+    mul = lambda w, k: (w * k if np.ndim(w) else (w if float(np.max(k)) > 0 else None))
+    s1 = install([mul(w, k) for w, k in zip(full, ma)])
+    m.sensitivity()
+    m.reset()
+    # ---- pass 2: complementary support, same response
+    full2 = make_seeds(outs, rng, pym, 'full')
+    s2 = install([mul(w, k) for w, k in zip(full2, mb)])
+    if all(w is None for w in s2):
+        s2 = install(full2)
+    m.sensitivity()
+    an, fd, err = compare(s2, ubase)
+    if err > entry['tol']:
+        return dict(ok=False, an=an, fd=fd, err=err, seed_kind='reseed:second sensitivity() after reset, complementary support', dyad_seed=dyad_seed)
+    # ---- pass 3: new design, response, a seed on yet another support
+    m.reset()
+    base3 = []
+    for x, v in zip(ubase, udirs):
+        if v is None:
+            base3.append(x)
+        elif sps.issparse(x):
+            base3.append((x + 0.05 * v).asformat(x.format))
+        else:
+            base3.append(x + 0.05 * v)
+    set_inputs(uins, base3, udirs, 0.0)
+    m.response()
+    if entry['freeze']:
+        entry['freeze'](m)
+    ma3, mb3 = _column_masks(outs, rng)
+    full3 = make_seeds(outs, rng, pym, 'full')
+    s3 = install([mul(w, k) for w, k in zip(full3, mb3)])
+    if all(w is None for w in s3):
+        s3 = install(full3)
+    m.sensitivity()
+    an, fd, err = compare(s3, base3)
+    return dict(ok=bool(err <= entry['tol']), an=an, fd=fd, err=err,
+                seed_kind='reseed:new design, response(), new support', dyad_seed=dyad_seed)
 
 
 def snapshot(x):
